@@ -151,6 +151,161 @@ func c14Alive(r *core.Run) {
 	}
 }
 
+// decodeInto decodes p with format f INTO the given receiver (the table's dec functions use a fresh one).
+func decodeInto(f ioFmt, recv *tensor.Dense, p []byte, d ref.DT) error {
+	switch f.name {
+	case "gob":
+		return recv.GobDecode(p)
+	case "gobstream":
+		return gob.NewDecoder(bytes.NewReader(p)).Decode(recv)
+	case "npy":
+		return recv.ReadNpy(bytes.NewReader(p))
+	case "csv":
+		return recv.ReadCSV(bytes.NewReader(p), tensor.As(d.D))
+	case "pb":
+		return recv.PBDecode(p)
+	case "fb":
+		return recv.FBDecode(p)
+	}
+	panic(f.name)
+}
+
+// c14Receivers: decoding into a receiver that was USED before - masked, column-major, lazily transposed, a view of
+// another tensor, of another shape - yields the same tensor as decoding into a fresh one: same shape, elements and mask,
+// consistent metadata, nothing pending (UT changes nothing), and the tensor the receiver was a view of is untouched.
+func c14Receivers(r *core.Run) {
+	kinds := []string{"masked", "colmajor", "transposed", "view", "othershape", "softmasked"}
+	r.SetBound("decode_receivers", fmt.Sprintf("every format x {float64, int32} x shapes {(6),(2,3),(3,2)} x source {plain, masked} x receiver used before as %v", kinds))
+	for _, f := range ioFmts {
+		for _, d := range []ref.DT{ref.Float64, ref.Int32} {
+			for _, shape := range [][]int{{6}, {2, 3}, {3, 2}} {
+				for _, smask := range []bool{false, true} {
+					for _, kind := range kinds {
+						if !r.Take() {
+							continue
+						}
+						f, d, shape, smask, kind := f, d, shape, smask, kind
+						if f.name == "csv" && len(shape) != 2 {
+							continue
+						}
+						id := fmt.Sprintf(propPfx+"C14|receiver|%s|%s|%s|srcmask=%v|%s", f.name, d.Name, shapeStr(shape), smask, kind)
+						if r.ReplayCase != "" && id != r.ReplayCase {
+							continue
+						}
+						r.Case(id, true, func() *core.Fail {
+							if !ioSupported(f, d) {
+								return nil
+							}
+							tensor.VerifResetPools()
+							n := ref.Prod(shape)
+							vals := make([]interface{}, n)
+							back := d.MakeSlice(n)
+							for i := range vals {
+								vals[i] = d.Code(i + 1)
+								ref.SliceSet(back, i, vals[i])
+							}
+							var src *tensor.Dense
+							smk := []bool{false, true, false, false, true, false}
+							if smask {
+								src = tensor.New(tensor.WithShape(shape...), tensor.WithBacking(back, append([]bool{}, smk...)))
+							} else {
+								src = tensor.New(tensor.WithShape(shape...), tensor.WithBacking(back))
+							}
+							var p []byte
+							if o := call(func() (e error) { p, e = f.enc(src); return }); o.Class != "ok" {
+								return nil
+							}
+							var fresh *tensor.Dense
+							if o := call(func() (e error) { fresh, e = f.dec(p, d); return }); o.Class != "ok" {
+								return nil // judged by the round-trip cases
+							}
+							fv, err := atlas.Logical(fresh)
+							if err != nil {
+								return nil
+							}
+							// the used receiver
+							rb := d.MakeSlice(n)
+							for i := 0; i < n; i++ {
+								ref.SliceSet(rb, i, d.Code(90+i))
+							}
+							var recv, parent *tensor.Dense
+							var parentBack interface{}
+							switch kind {
+							case "masked", "softmasked":
+								recv = tensor.New(tensor.WithShape(shape...), tensor.WithBacking(rb, []bool{true, false, true, true, false, true}))
+								if kind == "softmasked" {
+									recv.SoftenMask()
+								}
+							case "colmajor":
+								if len(shape) < 2 {
+									return nil
+								}
+								recv = tensor.New(tensor.WithShape(shape...), tensor.WithBacking(rb), tensor.AsFortran(nil))
+							case "transposed":
+								if len(shape) < 2 {
+									return nil
+								}
+								recv = tensor.New(tensor.WithShape(rev(shape)...), tensor.WithBacking(rb))
+								recv.T()
+							case "view":
+								parentBack = d.MakeSlice(2 * n)
+								for i := 0; i < 2*n; i++ {
+									ref.SliceSet(parentBack, i, d.Code(50+i))
+								}
+								parent = tensor.New(tensor.WithShape(2*n), tensor.WithBacking(parentBack))
+								v, err := parent.Slice(tensor.S(1, 1+n))
+								if err != nil {
+									return nil
+								}
+								recv = v.(*tensor.Dense)
+							case "othershape":
+								recv = tensor.New(tensor.WithShape(2, 2), tensor.WithBacking(d.MakeSlice(4)))
+							}
+							var derr error
+							if o := call(func() error { derr = decodeInto(f, recv, p, d); return nil }); o.Class != "ok" || derr != nil {
+								return core.F("unreadable", "recv", "%s: decoding into a receiver used before (%s) fails although a fresh receiver decodes: %v %s", f.name, kind, derr, o)
+							}
+							r.Op(1)
+							what := fmt.Sprintf("%s decoded into a receiver used before (%s), source %s %v masked=%v", f.name, kind, d.Name, shape, smask)
+							if !ref.EqInts(recv.Shape(), fresh.Shape()) {
+								return core.F("wrong-shape", "recv", "%s: shape %v, a fresh receiver gives %v", what, recv.Shape(), fresh.Shape())
+							}
+							got, err := atlas.Logical(recv)
+							if err != nil {
+								return core.F("unreadable", "recv-inv", "%s: %v", what, err)
+							}
+							for i := range fv {
+								if i >= len(got) || !ref.Same(got[i], fv[i]) {
+									return core.F("wrong-value", fmt.Sprintf("recv%d", i), "%s: reads %s, a fresh receiver gives %s", what, ref.FmtEls(got), ref.FmtEls(fv))
+								}
+							}
+							if recv.IsMasked() != fresh.IsMasked() || (recv.IsMasked() && bitsOf(recv.Mask()) != bitsOf(fresh.Mask())) {
+								return core.F("wrong-mask", "recv", "%s: mask %v %s, a fresh receiver gives %v %s", what, recv.IsMasked(), bitsOf(recv.Mask()), fresh.IsMasked(), bitsOf(fresh.Mask()))
+							}
+							if recv.DataOrder().IsColMajor() != fresh.DataOrder().IsColMajor() {
+								return core.F("wrong-shape", "recv-order", "%s: data order %v, a fresh receiver gives %v", what, recv.DataOrder(), fresh.DataOrder())
+							}
+							// nothing of the receiver's past is pending
+							call(func() error { recv.UT(); return nil })
+							if !ref.EqInts(recv.Shape(), fresh.Shape()) {
+								return core.F("wrong-shape", "recv-ut", "%s: a following UT changes the shape to %v: the receiver's old pending transpose survived the decoding", what, recv.Shape())
+							}
+							if parent != nil {
+								for i := 0; i < 2*n; i++ {
+									if !ref.Same(ref.SliceGet(parentBack, i), d.Code(50+i)) {
+										return core.F("operand-changed", "recv-parent", "%s: the tensor the receiver was a view of changed at element %d", what, i)
+									}
+								}
+							}
+							return nil
+						})
+					}
+				}
+			}
+		}
+	}
+}
+
 func c14Vals(d ref.DT, n int, vs string) []interface{} {
 	v := make([]interface{}, n)
 	e := edgeVals(d)
@@ -205,6 +360,7 @@ func runC14(r *core.Run) {
 		}
 	}
 	c14Alive(r)
+	c14Receivers(r)
 }
 
 var ioSupport = map[string]bool{}
